@@ -101,6 +101,11 @@ func (c c03) Generate(seed uint64, tier string, idx int) *core.Plan {
 		}
 		p.Steps = append(p.Steps, core.Step{Op: "hostile", S: []string{"empty"}, A: []int64{int64(t)}})
 	}
+	for _, t := range []int64{8, 9, 25, 26} {
+		for v := int64(0); v < 7; v++ {
+			p.Steps = append(p.Steps, core.Step{Op: "hostile", S: []string{"scalar"}, A: []int64{t, v, int64(r.Intn(2))}})
+		}
+	}
 	n := r.Range(60, 160)
 	for i := 0; i < n; i++ {
 		t := int64(r.Intn(ntargets))
@@ -162,12 +167,19 @@ func (c c03) Execute(p *core.Plan) *core.Result {
 		if o.Msg.Kind == world.KIssResp {
 			issResp2 = o.Msg.Side[0]
 		}
-		if o.Err != nil || o.Panic != nil {
+		if o.Panic != nil {
+			// honest bytes are bytes from a peer too
+			res.Violate(fmt.Sprintf("C03/panic/honest-%s/%s@%s", o.Op, panicClass(o.Panic), repoFrame(o.Stack)), fmt.Sprintf("%s panicked on an honest %d-byte message of a type-%d session (origin name %d bytes): %v", o.Op, len(o.Msg.Payload), o.S.Type, len(o.S.Origin), o.Panic), -1)
+		} else if o.Err != nil {
 			res.Infra = fmt.Sprintf("honest phase failed: %s: %v", o.Op, o.Err)
 		}
 	})
 	StartAll(w)
 	w.Net.Run()
+	if len(res.Violations) > 0 {
+		finish(w, res)
+		return res
+	}
 	if res.Infra != "" || len(w.Sessions) < 4 {
 		if res.Infra == "" {
 			res.Infra = "plan lacks the four honest sessions"
@@ -345,6 +357,34 @@ func (st *c03state) mutate(kind string, stp core.Step, tgt int) [][]byte {
 			return [][]byte{append(out, body...)}
 		}
 		return [][]byte{append(out, rest...)}
+	case "scalar":
+		// boundary values of the group order written into the scalar-carrying fields of the
+		// message: fixed-width r||s (targets 26, and the signature of type-3 requests), DER (25)
+		N := elliptic.P384().Params().N
+		vals := []*big.Int{big.NewInt(0), big.NewInt(1), new(big.Int).Sub(N, big.NewInt(1)), N, new(big.Int).Add(N, big.NewInt(1)), new(big.Int).Lsh(big.NewInt(1), 383), new(big.Int).Sub(new(big.Int).Lsh(big.NewInt(1), 384), big.NewInt(1))}
+		v := vals[int(stp.Arg(1, 0))%len(vals)].FillBytes(make([]byte, 48))
+		which := int(stp.Arg(2, 0)) % 2 // 0: r, 1: s
+		switch tgt {
+		case 8, 9, 26:
+			if len(b) < 96 {
+				return nil
+			}
+			c := append([]byte(nil), b...)
+			copy(c[len(c)-96+48*which:], v)
+			return [][]byte{c}
+		case 25:
+			r, sv := new(big.Int), new(big.Int)
+			if !parseDER(b, r, sv) {
+				return nil
+			}
+			if which == 0 {
+				r = new(big.Int).SetBytes(v)
+			} else {
+				sv = new(big.Int).SetBytes(v)
+			}
+			return [][]byte{derSig(r, sv)}
+		}
+		return nil
 	case "typefield":
 		if len(b) < 2 {
 			return nil
